@@ -917,7 +917,11 @@ type Role struct{ Name, Plain, Weighted string }
 // Siblings (R1.4): the two graph builders pass the same edge-kind and node-kind constants in each
 // parallel function, map rewrite variants to the same operator labels, and build exclusion children
 // as (base, subtract).
-func Siblings(p *load.Prog, r *oblig.Report, rule string) {
+//
+// focus names the builder the property is about ("plain" for C17, "weighted" for C10): only that builder's tables are
+// judged, against the documented table, so that a change of the OTHER builder does not raise an alarm about a graph
+// that still is what its property says. The tables of both are printed.
+func Siblings(p *load.Prog, r *oblig.Report, rule string, focus string) {
 	roles := []Role{
 		{"rewrite", "graph.checkRewrite", "graph.WeightedAuthorizationModelGraphBuilder.parseRewrite"},
 		{"this", "graph.parseThis", "graph.WeightedAuthorizationModelGraphBuilder.parseThis"},
@@ -954,7 +958,15 @@ func Siblings(p *load.Prog, r *oblig.Report, rule string) {
 		}
 		pe, we := setKey(callArgConsts(pf, edgeCallees, "edgeType")), setKey(callArgConsts(wf, edgeCallees, "edgeType"))
 		construct := "edge-kinds:" + role.Name
+		own, ownName, ownFn := pe, role.Plain, pf
+		if focus == "weighted" {
+			own, ownName, ownFn = we, role.Weighted, wf
+		}
 		switch {
+		case focus != "" && own != want[role.Name]:
+			r.Bad(rule, construct, p.Pos(ownFn.Pos()), fmt.Sprintf("%s creates edge kinds {%s}; the documented kinds for %s are {%s} (0 direct, 1 rewrite, 2 TTU, 3 computed)", ownName, own, role.Name, want[role.Name]))
+		case focus != "":
+			r.OK(rule, construct, p.Pos(ownFn.Pos()), "equal-constant-sets", "{"+own+"} (plain {"+pe+"}, weighted {"+we+"})")
 		case pe != we:
 			r.Bad(rule, construct, p.Pos(wf.Pos()), fmt.Sprintf("plain builder creates edge kinds {%s} in %s, weighted builder {%s} in %s", pe, role.Plain, we, role.Weighted))
 		case pe != want[role.Name]:
@@ -967,7 +979,15 @@ func Siblings(p *load.Prog, r *oblig.Report, rule string) {
 		wantAPI := map[string]string{"rewrite": "addedge", "this": "upsertedge", "computed": "addedge", "ttu": "hasedge,upsertedge"}
 		pa, wa := setKey(calleeKinds(pf, edgeCallees)), setKey(calleeKinds(wf, edgeCallees))
 		construct = "edge-api:" + role.Name
+		ownA := pa
+		if focus == "weighted" {
+			ownA = wa
+		}
 		switch {
+		case focus != "" && ownA != wantAPI[role.Name]:
+			r.Bad(rule, construct, p.Pos(ownFn.Pos()), fmt.Sprintf("%s creates the edges of this step through {%s}; documented: {%s} (add = one edge per occurrence, upsert = one edge per pair with its conditions collected, has = guarded by an existence test)", ownName, ownA, wantAPI[role.Name]))
+		case focus != "":
+			r.OK(rule, construct, p.Pos(ownFn.Pos()), "equal-callee-sets", "{"+ownA+"} (plain {"+pa+"}, weighted {"+wa+"})")
 		case pa != wa:
 			r.Bad(rule, construct, p.Pos(wf.Pos()), fmt.Sprintf("plain builder creates the edges of this step through {%s}, weighted builder through {%s}: one of them collapses repeated operands or duplicates edges", pa, wa))
 		case pa != wantAPI[role.Name]:
@@ -977,7 +997,18 @@ func Siblings(p *load.Prog, r *oblig.Report, rule string) {
 		}
 		pn, wn := setKey(callArgConsts(pf, nodeCallees, "nodeType")), setKey(callArgConsts(wf, nodeCallees, "nodeType"))
 		construct = "node-kinds:" + role.Name
-		if pn != wn {
+		wantNodes := map[string]string{"rewrite": "2", "this": "0,1,3", "computed": "1", "ttu": "1"}
+		ownN := pn
+		if focus == "weighted" {
+			ownN = wn
+		}
+		if focus != "" {
+			if ownN != wantNodes[role.Name] {
+				r.Bad(rule, construct, p.Pos(ownFn.Pos()), fmt.Sprintf("%s creates node kinds {%s}; documented for %s: {%s} (0 type, 1 type#relation, 2 operator, 3 type:*)", ownName, ownN, role.Name, wantNodes[role.Name]))
+			} else {
+				r.OK(rule, construct, p.Pos(ownFn.Pos()), "equal-constant-sets", "{"+ownN+"} (plain {"+pn+"}, weighted {"+wn+"})")
+			}
+		} else if pn != wn {
 			r.Bad(rule, construct, p.Pos(wf.Pos()), fmt.Sprintf("plain builder creates node kinds {%s}, weighted builder {%s}", pn, wn))
 		} else {
 			r.OK(rule, construct, p.Pos(wf.Pos()), "equal-constant-sets", "{"+pn+"}")
@@ -986,6 +1017,9 @@ func Siblings(p *load.Prog, r *oblig.Report, rule string) {
 	// operator map and exclusion order from the type switches (syntax)
 	opWant := map[string]string{"Union": "union", "Intersection": "intersection", "Difference": "exclusion"}
 	for _, fnName := range []string{"checkRewrite", "WeightedAuthorizationModelGraphBuilder.parseRewrite"} {
+		if (focus == "plain" && fnName != "checkRewrite") || (focus == "weighted" && fnName == "checkRewrite") {
+			continue
+		}
 		fd, pk := p.FuncDecl("graph", fnName)
 		if fd == nil {
 			r.Unknown(rule, "anchor:operator-map:"+fnName, "-", "function not found")
